@@ -83,7 +83,22 @@ def gen_cases(ctx):
                                             "remove_completed_job_nodes": False}]),
                "filter": rng.choice(["default", "default", {"names": ["non_idle_machines"], "form": "function"},
                                      {"names": ["non_immediate_machines"], "form": "function"}, None]),
-               "padding": True, "seed": rng.randrange(2**31)}
+               "padding": rng.random() < 0.8, "seed": rng.randrange(2**31)}
+    yield from _recirc_action_cases(ctx)
+
+
+def _recirc_action_cases(ctx):
+    """Small recirculation generators without padding, several episodes: the template instance the
+    env samples at construction may not use the highest machine id that later episodes use."""
+    rng = ctx.rng
+    for i in range(ctx.scale(120, 12000)):
+        yield {"kind": "multi", "instance": {"cls": "generated-recirc"},
+               "generator": {"num_jobs": [1, 2], "num_machines": [2, 3], "duration_range": [1, 9],
+                             "allow_recirculation": True, "machines_per_operation": 1,
+                             "seed": rng.randrange(10**6)},
+               "style": "recirc", "builder": "agent_task", "features": ["is_ready"], "reward": "makespan",
+               "updater_opts": {}, "filter": "default", "padding": False, "episodes": 6,
+               "seed": rng.randrange(2**31)}
 
 
 def witnesses(ctx):
@@ -294,11 +309,14 @@ def run_multi(ctx, case):
         kw["ready_operations_filter"] = filt
     env = MultiJobShopGraphEnv(g, feats, graph_initializer=builders()[case["builder"]],
                                graph_updater_config=up, reward_function_config=rw,
-                               use_padding=True, **kw)
+                               use_padding=case.get("padding", True), **kw)
     ctx.count("multi_env_configs")
+    pad = case.get("padding", True)
+    if not pad:
+        ctx.count("multi_env_configs_without_padding")
     ctx.count("multi_style_" + case["style"])
     space0 = str(env.observation_space)
-    for ep in range(3):
+    for ep in range(case.get("episodes", 3)):
         try:
             obs, info = env.reset()
         except ValidationError as e:
@@ -328,7 +346,7 @@ def run_multi(ctx, case):
         want_feats = ["".join(p.capitalize() for p in t.split("_")) + "Observer" for t in case["features"]]
         if got_feats != want_feats:
             bad["feature_observers"] = {"got": got_feats, "want": want_feats}
-        if inner.use_padding is not True or inner.render_mode is not None:
+        if inner.use_padding is not pad or inner.render_mode is not None:
             bad["padding_or_render_mode"] = [inner.use_padding, inner.render_mode]
         if bad:
             ctx.violation("c18_multi_env_episode_config_differs_from_constructor",
@@ -345,7 +363,7 @@ def run_multi(ctx, case):
         if str(env.observation_space) != space0:
             ctx.violation("c18_multi_env_space_changed", {})
         try:
-            if not episode(ctx, env, lambda: env.single_job_shop_graph_env, rng, f"multi ep{ep}", True, obs):
+            if not episode(ctx, env, lambda: env.single_job_shop_graph_env, rng, f"multi ep{ep}", pad, obs):
                 break
         except ValidationError as e:
             tb = traceback.format_exc()
